@@ -15,6 +15,7 @@ import (
 	"math/big"
 	"net"
 	"time"
+	"unicode/utf8"
 )
 
 type CA struct {
@@ -67,6 +68,11 @@ func (ca *CA) Pool() *x509.CertPool {
 
 // Leaf issues a server certificate for the given DNS names / IP literals.
 func (ca *CA) Leaf(notBefore, notAfter time.Time, names ...string) tls.Certificate {
+	for i, n := range names {
+		if !utf8.ValidString(n) || n == "" {
+			names[i] = "invalid-name.example" // hostile SNI: still hand out some certificate
+		}
+	}
 	key, err := ecdsa.GenerateKey(elliptic.P256(), rand.Reader)
 	if err != nil {
 		panic(err)
